@@ -258,6 +258,50 @@ def run(ctx):
         if o != want and not o.startswith("FAULT"):
             ctx.fail("int:wrong-text", "reversed integer %s gives '%s'" % (l, N.text(o)), {"line": l})
 
+    # ---- API audit (checks/_c09_api.py): the remaining public forms, judged against the forms driven above ---------
+    # NumberToString<true>(stream, v): the sign, then the digits reversed (oracle: the decimal text)
+    sl = ["n2sirs %d %d %d" % (bits, sg, v) for (bits, sg, v) in ic][::4]
+    impl, faults = N.run_guarded(ctx, exe, sl, "integer-reversed-stream")
+    if impl is None:
+        impl = ["FAULT abandoned"] * len(sl)
+    for i, kind, err in faults:
+        ln = sl[i] if i is not None else "(stream abandoned)"
+        ctx.fail("fault:" + kind, "sanitizer fault in NumberToString<true> on " + ln, {"line": ln, "stderr": err[-3000:]})
+    okc = 0
+    for l, o in zip(sl, impl):
+        v = int(l.split(" ")[3])
+        want = core.show_units(core.units(("-" if v < 0 else "") + str(abs(v))[::-1]))
+        if o.startswith("FAULT"):
+            continue
+        okc += 1
+        if o != want:
+            ctx.fail("int:wrong-text", "NumberToString<true> %s gives '%s'" % (l, N.text(o)), {"line": l, "expected": N.text(want)})
+    ctx.count("NumberToString<true>(stream, integer) = sign + reversed digits", len(sl), okc)
+    # every way of giving the format: omitted, RealFormatInfo{}, {prec}, {type}, = prec, = type  ==  the explicit {prec, type}
+    fl, want_l = [], []
+    sample = [0x3FF8000000000000, 0x400921FB54442D18, 0x3FB999999999999A, 0x7FEFFFFFFFFFFFFF, 0x0000000000000001, 0xC05EDCCCCCCCCCCD, 0x4340000000000000]
+    for b in sample:
+        for kind, bb in (("d", b), ("f", (b >> 32) & 0xFFFFFFFF)):
+            for form, (pr, fm) in ((0, (6, 0)), (1, (6, 0))):
+                fl.append("n2sfi %s %x %d 6 0" % (kind, bb, form)); want_l.append("n2sr %s %x %d %d 1 -" % (kind, bb, pr, fm))
+            for pr in (0, 1, 9, 17, 40):
+                fl.append("n2sfi %s %x 2 %d 0" % (kind, bb, pr)); want_l.append("n2sr %s %x %d 0 1 -" % (kind, bb, pr))
+                fl.append("n2sfi %s %x 4 %d 0" % (kind, bb, pr)); want_l.append("n2sr %s %x %d 0 1 -" % (kind, bb, pr))
+            for fm in (0, 1, 2):
+                fl.append("n2sfi %s %x 3 6 %d" % (kind, bb, fm)); want_l.append("n2sr %s %x 6 %d 1 -" % (kind, bb, fm))
+                fl.append("n2sfi %s %x 5 6 %d" % (kind, bb, fm)); want_l.append("n2sr %s %x 6 %d 1 -" % (kind, bb, fm))
+    got, faults = N.run_guarded(ctx, exe, fl, "format-forms")
+    ref, _ = N.run_guarded(ctx, exe, want_l, "format-forms-ref")
+    if got is not None and ref is not None:
+        okc = 0
+        for l, a, b in zip(fl, got, ref):
+            if a.startswith("FAULT") or b.startswith("FAULT"):
+                continue
+            okc += 1
+            if a != b:
+                ctx.fail("real:format-form", "RealFormatInfo form %s gives '%s', the explicit {precision, type} form '%s'" % (l, N.text(a), N.text(b)), {"line": l})
+        ctx.count("RealFormatInfo construction/assignment forms = explicit {precision, type}", len(fl), okc)
+
     # ---- S3 second opinion: snprintf inside the harness, uniform bit patterns in bulk ----------
     per = 120000 if ctx.thorough else 5000
     sets = [("--fmt-doubles", ctx.seed * 1000 + k, per) for k in range(16)]
